@@ -21,6 +21,8 @@ FAULTS = [
     (['vw.src:', '  v = 3', '  nope = 1'], 2, ValueError, False),     # bad block member (semantic)
     (['vw.src:', '  v = 3', '  v = = 1'], 2, SyntaxError, True),      # bad block member (syntactic)
     (['vw.nosuch:', '  x = 1'], 0, ValueError, False),                # block of unknown configurable
+    (['vw.src:', '  v = 3', '  nope = 1', '  v = 4'], 2, ValueError, False),   # duplicate member after the bad one
+    (['vw.src:', '  nope = 0', '  v = 1', '  nope = 2'], 1, ValueError, False),  # the FIRST bad member is named
     ([], None, None, False),                                          # no fault
 ]
 NFAULT = len(FAULTS)
@@ -38,7 +40,7 @@ def snapshot():
 def c16_fault(fault: int, pos: int, depth: int, lead: int, amb: bool, locked: bool,
               v0: int, v1: int, v2: int) -> bool:
   """
-  pre: 0 <= fault < 14 and 0 <= pos < 4 and 0 <= depth < 3 and 0 <= lead < 3
+  pre: 0 <= fault < 16 and 0 <= pos < 4 and 0 <= depth < 3 and 0 <= lead < 3
   """
   world.fresh()
   fault = rt.pick(fault, NFAULT)
@@ -118,7 +120,7 @@ def c16_fault(fault: int, pos: int, depth: int, lead: int, amb: bool, locked: bo
     extra = []
     if fault in (10, 11) and False:
       pass
-    if fault == 10:
+    if fault in (10, 13):
       extra = ['vw.src.v = 3']          # members before a semantically bad member took effect
     gin.parse_config('\n'.join(pre + prefix_good + extra + post) + '\n')
   want = snapshot()
@@ -212,16 +214,16 @@ HARNESSES = {
                  'gin.utils:augment_exception_message_and_reraise', 'gin.config:_parse_scope'],
         smoke=[dict(fault=4, pos=2, depth=2, lead=1, amb=True, locked=True, v0=1, v1=2, v2=3),
                dict(fault=0, pos=1, depth=1, lead=2, amb=False, locked=False, v0=1, v1=2, v2=3),
-               dict(fault=13, pos=0, depth=2, lead=0, amb=False, locked=False, v0=1, v1=2, v2=3),
+               dict(fault=15, pos=0, depth=2, lead=0, amb=False, locked=False, v0=1, v1=2, v2=3),
                dict(fault=10, pos=3, depth=0, lead=0, amb=False, locked=False, v0=1, v1=2, v2=3)],
         tiers={'quick': dict(split=dict(fault=list(range(NFAULT)), depth=[0, 1, 2]),
                              fixed=dict(lead=1), budget_s=100),
                'thorough': dict(split=dict(fault=list(range(NFAULT)), depth=[0, 1, 2], lead=[0, 1, 2]),
                                 budget_s=300)},
-        bounds='3 good statements (values: all ints, through constants) + one of 13 faults (bad value, missing value, '
+        bounds='3 good statements (values: all ints, through constants) + one of 15 faults (bad value, missing value, '
                'unbalanced bracket, bad selector, unknown parameter / configurable / reference (on the 2nd line of its '
                'value), deny-listed parameter, bad include, bad import, semantically / syntactically bad block member, '
-               'block of an unknown configurable) at position 0-3, include depth 0-2, 0-2 leading blank/comment '
+               'block of an unknown configurable, a bad member between / before duplicate members of one block) at position 0-3, include depth 0-2, 0-2 leading blank/comment '
                'lines, with/without an ambient scope, with/without a finalized config re-opened by unlock_config'),
 }
 ASSUMPTIONS = ['the binding store is read through get_bindings(inherit_scopes=False) over the keys of the private '
